@@ -1,4 +1,6 @@
-(* DensityDefs.v — executable model of density/include/density_sketch_impl.hpp (no proofs here).
+(* DensityDefs.v — executable model of density/include/density_sketch_impl.hpp (no proofs here), i.e. of the code WITH the
+   repairs /verif/fixes/20_*.patch (is_empty() <=> n_ == 0 and the readers keep level 0; dimension check in get_estimate;
+   serialize(header); bounds/stream checks in the readers); the behaviour before the repairs is in Regression_density.v.
    A point is a list of integer coordinates; the kernel is an ARBITRARY function
    point -> point -> Z (the concrete instances below are scaled by 2^20 so that the
    harness kernels, which only return small dyadic values, are represented exactly).
@@ -288,7 +290,8 @@ Fixpoint rd_levels (la : bool) (fuel : nat) (dim : Z) (to_read : Z) : parser (li
 
 Notation "x <- p ;; q" := (pbind p (fun x => q)) (at level 61, p at next level, right associativity).
 
-Definition dec_p (la : bool) (fuel : nat) : parser ds :=
+(* the 12 bytes every image starts with and the checks made on them: k, dim, empty flag *)
+Definition dec_head (la : bool) : parser (Z * Z * bool) :=
   _ <- need la 12 ;;
   pre <- rd 1 ;; ver <- rd 1 ;; fam <- rd 1 ;; flags <- rd 1 ;; k <- rd 2 ;; _ <- rd 2 ;; dim <- rd 4 ;;
   _ <- guard (2 <=? k) ;;                                             (* check_k *)
@@ -296,12 +299,19 @@ Definition dec_p (la : bool) (fuel : nat) : parser ds :=
   _ <- guard (fam =? 19) ;;                                           (* check_family_id *)
   let empty := Z.testbit flags 2 in
   _ <- guard ((empty && (pre =? 3)) || (negb empty && (pre =? 6))) ;; (* check_header_validity *)
-  if empty then pret (ds_new k dim) else
+  pret (k, dim, empty).
+
+Definition dec_body (la : bool) (fuel : nat) (k dim : Z) : parser ds :=
   _ <- need la 12 ;;                                                  (* PREAMBLE_INTS_LONG * 4 = 24 bytes in total *)
   ret <- rd 4 ;; n <- rd 8 ;;
   _ <- need la (ret * (8 * dim)) ;;
   ls <- rd_levels la fuel dim ret ;;
   pret {| d_k := k; d_dim := dim; d_ret := ret; d_n := n; d_levels := ensure1 ls |}.
+
+Definition dec_p (la : bool) (fuel : nat) : parser ds :=
+  h <- dec_head la ;;
+  let '(k, dim, empty) := h in
+  if empty then pret (ds_new k dim) else dec_body la fuel k dim.
 
 (* deserialize(bytes, size) [la = true] and deserialize(istream) [la = false]: the sketch and the unread rest *)
 Definition dec (la : bool) (b : list Z) : option (ds * list Z) := dec_p la (length b) b.
